@@ -11,6 +11,11 @@ package main
 //                                ok h=<hex>|… dims=<c>x<r>|panic rows=<cell>|…;…
 //   cast x<hex of one field> ->  <cell>
 //   cell = <kind>/<CellString read-back>/<CellFloat64 read-back>   (see lean/Driver/Csv.lean)
+//   loadtc x<hex of the text> x<hex of a text heading>…  ->  as load (ParseCsvTextIntoTableWithTextColumns)
+//   hist n<hex name> x<hex text> x<hex heading>… / …     ->  several loads into ONE data set; per step
+//                                `e=<class of the error added|-> n=<errors so far> t=<none|ok …>`
+//   castgo x<hex of one field> -> go-only   (literal with more than 800 mantissa digits: outside the
+//                                model's scope, judged against strconv.ParseFloat only)
 //
 // Besides the diff against the model, every result is judged directly against the property
 // (reference for "the fields of the text": Go's encoding/csv with the loader's configuration;
@@ -81,6 +86,38 @@ func csvErrClass(err error) string {
 		}
 	}
 	return "other"
+}
+
+// csvSubErrClass: class of one entry of ds.errors.  crem's own "no header record" error and AddTable's
+// refusal are recognised by their text (they are plain errors); everything else is "other".
+func csvSubErrClass(err error) string {
+	if c := csvErrClass(err); c != "other" {
+		return c
+	}
+	switch msg := err.Error(); {
+	case strings.Contains(msg, "csv content has no header record"):
+		return "noRecords"
+	case strings.Contains(msg, "already in DataSet"):
+		return "duplicateTable"
+	}
+	return "other"
+}
+
+// csvErrorsOf: the entries of ds.Errors() (nil when there is none)
+func csvErrorsOf(ds *cremcsv.DataSet) []error {
+	err := ds.Errors()
+	if err == nil {
+		return nil
+	}
+	ce, ok := err.(*cremerrors.CompositeError)
+	if !ok {
+		return []error{err}
+	}
+	out := make([]error, ce.Size())
+	for i := range out {
+		out[i] = ce.SubError(i)
+	}
+	return out
 }
 
 func hexs(s string) string { return hex.EncodeToString([]byte(s)) }
@@ -183,6 +220,16 @@ func csvCastCase(c *Ctx, field, stream string) {
 	}
 }
 
+// csvJudgeTextCell: a cell of a text column must be the field's text, whatever it looks like.
+func csvJudgeTextCell(e *csvEval, field string, t tables.CsvTable, col, row uint) {
+	v := t.Cell(col, row)
+	if x, ok := v.(string); !ok || x != field {
+		e.fail("cells-faithful", "csv:text-column-cell-not-text", fmt.Sprintf("field %q of a text column became %T %v at (col %d,row %d)", field, v, v, col, row))
+	} else if got := t.CellString(col, row); got != field {
+		e.fail("cells-faithful", "csv:text-column-cell-not-text", fmt.Sprintf("field %q of a text column reads back as %q", field, got))
+	}
+}
+
 // csvJudgeCell: the property's clause for one cell — numeric fields as numbers, all others as text.
 func csvJudgeCell(e *csvEval, field string, t tables.CsvTable, col, row uint) {
 	v := t.Cell(col, row)
@@ -242,8 +289,90 @@ func csvLoadText(text string) (*cremcsv.DataSet, string) {
 	return ds, "t"
 }
 
-// csvEvaluate: one text through the loader; canonical result + the property judged directly.
-func csvEvaluate(text string, loader csvLoader) *csvEval {
+// csvLoadTextTC: the text-column entry point the engine's POST /solutions handler uses
+func csvLoadTextTC(ths []string) csvLoader {
+	return func(text string) (*cremcsv.DataSet, string) {
+		ds := cremcsv.NewDataSet("verif")
+		ds.ParseCsvTextIntoTableWithTextColumns("t", text, ths...)
+		return ds, "t"
+	}
+}
+
+func csvIsTextHeading(ths []string, heading string) bool {
+	for _, h := range ths {
+		if h == heading {
+			return true
+		}
+	}
+	return false
+}
+
+// csvTableCanon: the protocol text of a loaded table (`ok h=… dims=… rows=…`), with its dimensions.
+func csvTableCanon(ct tables.CsvTable, kinds map[string]int) (canon string, cols, rows uint, dimsPanic string) {
+	header := ct.Header()
+	hs := make([]string, len(header))
+	for i, h := range header {
+		hs[i] = hexs(h)
+	}
+	dims := ""
+	dimsPanic, _ = protectSite(func() { cols, rows = ct.ColumnAndRowSize() })
+	if dimsPanic != "" {
+		dims = "panic"
+		cols, rows = 0, 0
+	} else {
+		dims = fmt.Sprintf("%dx%d", cols, rows)
+	}
+	var rowStrs []string
+	for r := uint(0); r < rows; r++ {
+		cs := make([]string, cols)
+		for k := uint(0); k < cols; k++ {
+			var kind string
+			cs[k], kind, _ = cellCanon(ct, k, r)
+			if kinds != nil {
+				kinds[kind]++
+			}
+		}
+		rowStrs = append(rowStrs, strings.Join(cs, "|"))
+	}
+	return fmt.Sprintf("ok h=%s dims=%s rows=%s", strings.Join(hs, "|"), dims, strings.Join(rowStrs, ";")), cols, rows, dimsPanic
+}
+
+// csvJudgeTable: the property's clauses for a table loaded from a text the reader accepts as `ref`
+// (at least one record): header, dimensions, every cell.
+func csvJudgeTable(e *csvEval, text string, ct tables.CsvTable, ref [][]string, ths []string, cols, rows uint, dp string) {
+	header := ct.Header()
+	wantCols, wantRows := uint(len(ref[0])), uint(len(ref)-1)
+	same := len(header) == len(ref[0])
+	for i := 0; same && i < len(header); i++ {
+		same = header[i] == ref[0][i]
+	}
+	if !same {
+		e.fail("header-faithful", "csv:header-wrong", fmt.Sprintf("header %q, first record %q", header, ref[0]))
+	}
+	if dp != "" {
+		sig := "csv:dims-panic"
+		if wantRows == 0 {
+			sig = "csv:header-only-dims-panic"
+		}
+		e.fail("dimensions", sig, fmt.Sprintf("text %q loads, then ColumnAndRowSize() panics: %s (expected %d columns, %d rows)", clip(text, 200), dp, wantCols, wantRows))
+	} else if cols != wantCols || rows != wantRows {
+		e.fail("dimensions", "csv:dims-wrong", fmt.Sprintf("text %q: ColumnAndRowSize() = (%d,%d), text has %d header columns and %d data rows", clip(text, 200), cols, rows, wantCols, wantRows))
+	} else {
+		for r := uint(0); r < rows; r++ {
+			for k := uint(0); k < cols; k++ {
+				if csvIsTextHeading(ths, ref[0][k]) {
+					csvJudgeTextCell(e, ref[r+1][k], ct, k, r)
+				} else {
+					csvJudgeCell(e, ref[r+1][k], ct, k, r)
+				}
+			}
+		}
+	}
+}
+
+// csvEvaluate: one text through the loader (ths = the text headings the loader was given);
+// canonical result + the property judged directly.
+func csvEvaluate(text string, loader csvLoader, ths []string) *csvEval {
 	e := &csvEval{kinds: map[string]int{}}
 	ref, refErr := csvRefRead(text)
 	e.feat = csvFeatures(text, ref)
@@ -263,9 +392,9 @@ func csvEvaluate(text string, loader csvLoader) *csvEval {
 	err := ds.Errors()
 	table, terr := ds.Table(name)
 	if err != nil {
-		class := "other"
-		if ce, ok := err.(*cremerrors.CompositeError); ok && ce.Size() == 1 {
-			class = csvErrClass(ce.SubError(0))
+		class := "other" // also: more than one error for one text
+		if subs := csvErrorsOf(ds); len(subs) == 1 {
+			class = csvSubErrClass(subs[0])
 		}
 		e.result = "err:" + class
 		e.verdict = e.result
@@ -274,6 +403,12 @@ func csvEvaluate(text string, loader csvLoader) *csvEval {
 		}
 		if refErr == nil && len(ref) > 0 { // a text without any record may be rejected: it has no header
 			e.fail("error-iff-malformed", "csv:spurious-error", fmt.Sprintf("text %q rejected (%v) though the reader accepts it", clip(text, 200), err))
+		}
+		if refErr == nil && len(ref) == 0 && class != "noRecords" {
+			e.fail("error-iff-malformed", "csv:record-free-text-wrong-error", fmt.Sprintf("text %q has no record: expected exactly the one error 'no header record', got %v", clip(text, 200), err))
+		}
+		if refErr != nil && class != csvErrClass(refErr) {
+			e.fail("error-iff-malformed", "csv:wrong-error-class", fmt.Sprintf("text %q: the reader's error is %v, the loader reports %v", clip(text, 200), refErr, err))
 		}
 		return e
 	}
@@ -291,32 +426,8 @@ func csvEvaluate(text string, loader csvLoader) *csvEval {
 		e.fail("table-type", "csv:table-type", fmt.Sprintf("%T", table))
 		return e
 	}
-	header := ct.Header()
-	hs := make([]string, len(header))
-	for i, h := range header {
-		hs[i] = hexs(h)
-	}
-	var cols, rows uint
-	dims := ""
-	dp, _ := protectSite(func() { cols, rows = ct.ColumnAndRowSize() })
-	if dp != "" {
-		dims = "panic"
-		cols, rows = 0, 0
-	} else {
-		dims = fmt.Sprintf("%dx%d", cols, rows)
-	}
-	e.cols, e.rows = cols, rows
-	var rowStrs []string
-	for r := uint(0); r < rows; r++ {
-		cs := make([]string, cols)
-		for k := uint(0); k < cols; k++ {
-			var kind string
-			cs[k], kind, _ = cellCanon(ct, k, r)
-			e.kinds[kind]++
-		}
-		rowStrs = append(rowStrs, strings.Join(cs, "|"))
-	}
-	e.result = fmt.Sprintf("ok h=%s dims=%s rows=%s", strings.Join(hs, "|"), dims, strings.Join(rowStrs, ";"))
+	var dp string
+	e.result, e.cols, e.rows, dp = csvTableCanon(ct, e.kinds)
 	e.verdict = "ok"
 	if dp != "" {
 		e.verdict = "ok,dims-panic"
@@ -324,36 +435,14 @@ func csvEvaluate(text string, loader csvLoader) *csvEval {
 
 	// ---- the property, judged directly on the implementation
 	if refErr == nil && len(ref) > 0 {
-		wantCols, wantRows := uint(len(ref[0])), uint(len(ref)-1)
-		same := len(header) == len(ref[0])
-		for i := 0; same && i < len(header); i++ {
-			same = header[i] == ref[0][i]
-		}
-		if !same {
-			e.fail("header-faithful", "csv:header-wrong", fmt.Sprintf("header %q, first record %q", header, ref[0]))
-		}
-		if dp != "" {
-			sig := "csv:dims-panic"
-			if wantRows == 0 {
-				sig = "csv:header-only-dims-panic"
-			}
-			e.fail("dimensions", sig, fmt.Sprintf("text %q loads, then ColumnAndRowSize() panics: %s (expected %d columns, %d rows)", clip(text, 200), dp, wantCols, wantRows))
-		} else if cols != wantCols || rows != wantRows {
-			e.fail("dimensions", "csv:dims-wrong", fmt.Sprintf("text %q: ColumnAndRowSize() = (%d,%d), text has %d header columns and %d data rows", clip(text, 200), cols, rows, wantCols, wantRows))
-		} else {
-			for r := uint(0); r < rows; r++ {
-				for k := uint(0); k < cols; k++ {
-					csvJudgeCell(e, ref[r+1][k], ct, k, r)
-				}
-			}
-		}
+		csvJudgeTable(e, text, ct, ref, ths, e.cols, e.rows, dp)
 	}
 	return e
 }
 
 // csvShrink: greedy byte/chunk deletion keeping the same failure signature.
-func csvShrink(text, signature string, loader csvLoader) string {
-	still := func(t string) bool { return csvEvaluate(t, loader).has(signature) }
+func csvShrink(text, signature string, loader csvLoader, ths []string) string {
+	still := func(t string) bool { return csvEvaluate(t, loader, ths).has(signature) }
 	for chunk := len(text) / 2; chunk >= 1; chunk /= 2 {
 		for i := 0; i+chunk <= len(text); {
 			cand := text[:i] + text[i+chunk:]
@@ -384,8 +473,27 @@ func csvFail(c *Ctx, predicate, signature, detail string, ops []string) {
 
 // csvLoadCase: one text through ParseCsvTextIntoTable (or, for the file stream, DataSet.Load).
 func csvLoadCase(c *Ctx, text, stream string, loader csvLoader) {
-	op := "load x" + hexs(text)
-	e := csvEvaluate(text, loader)
+	csvLoadCaseTC(c, text, stream, loader, nil, false)
+}
+
+func csvTCOp(text string, ths []string) string {
+	op := "loadtc x" + hexs(text)
+	for _, h := range ths {
+		op += " x" + hexs(h)
+	}
+	return op
+}
+
+// csvLoadCaseTC: tc = the text goes through ParseCsvTextIntoTableWithTextColumns with headings ths (op `loadtc`)
+func csvLoadCaseTC(c *Ctx, text, stream string, loader csvLoader, ths []string, tc bool) {
+	mkop := func(t string) string {
+		if tc {
+			return csvTCOp(t, ths)
+		}
+		return "load x" + hexs(t)
+	}
+	op := mkop(text)
+	e := csvEvaluate(text, loader, ths)
 	c.Op(op, e.result)
 	for _, f := range e.findings {
 		ops := []string{op}
@@ -393,19 +501,30 @@ func csvLoadCase(c *Ctx, text, stream string, loader csvLoader) {
 		if !csvSeenSignature[f.signature] {
 			// first witness of this signature in the run: minimise it
 			csvSeenSignature[f.signature] = true
-			small := csvShrink(text, f.signature, loader)
+			small := csvShrink(text, f.signature, loader, ths)
 			if small != text {
-				for _, g := range csvEvaluate(small, loader).findings {
+				for _, g := range csvEvaluate(small, loader, ths).findings {
 					if g.signature == f.signature {
 						detail = g.detail + "   [minimised from " + strconv.Itoa(len(text)) + " bytes]"
 					}
 				}
-				ops = []string{"load x" + hexs(small)}
+				ops = []string{mkop(small)}
 			}
 		}
 		csvFail(c, f.predicate, f.signature, detail, ops)
 	}
 	c.Stat(stream + " " + e.verdict)
+	if tc && strings.HasPrefix(e.verdict, "ok") {
+		hit := 0
+		if ref, err := csvRefRead(text); err == nil && len(ref) > 1 {
+			for _, h := range ref[0] {
+				if csvIsTextHeading(ths, h) {
+					hit++
+				}
+			}
+		}
+		c.Stat(stream + " ok-text headings given=" + csvBucket(len(ths)) + " text columns with data=" + csvBucket(hit))
+	}
 	if strings.HasPrefix(e.verdict, "ok") {
 		c.Stat("ok-text features=" + e.feat)
 		if e.verdict == "ok" {
@@ -420,6 +539,161 @@ func csvLoadCase(c *Ctx, text, stream string, loader csvLoader) {
 	if !strings.HasPrefix(e.verdict, "ok") || e.feat != "plain" || e.kinds["n"] > 0 || e.kinds["b"] > 0 || e.verdict != "ok" {
 		c.Nontrivial(op)
 	}
+}
+
+// ---------------------------------------------------------------- several loads into one data set
+
+type csvHistStep struct {
+	name, text string
+	ths        []string
+}
+
+func csvHistOp(steps []csvHistStep) string {
+	parts := make([]string, len(steps))
+	for i, st := range steps {
+		parts[i] = "n" + hexs(st.name) + " x" + hexs(st.text)
+		for _, h := range st.ths {
+			parts[i] += " x" + hexs(h)
+		}
+	}
+	return "hist " + strings.Join(parts, " / ")
+}
+
+// csvHistCase: the steps go into ONE csv.DataSet through ParseCsvTextIntoTableWithTextColumns.  After each
+// step the model is told the class of the error the step added, the number of errors so far and the table
+// now found under the step's name.  Judged directly, step by step (the property's clause, on a data set
+// with history: what ONE load adds is a table holding this text's fields, or an error):
+//   a text the reader rejects / without record  -> exactly one more error, every table as before;
+//   a well-formed text                           -> no new error and Table(name) is a NEW table holding this
+//                                                   text, or exactly one more error and every table as before
+//                                                   (a name already in use); never neither, never both.
+func csvHistCase(c *Ctx, steps []csvHistStep, stream string) {
+	op := csvHistOp(steps)
+	var outs []string
+	var fails []csvFinding
+	verdicts := ""
+	p, site := protectSite(func() {
+		ds := cremcsv.NewDataSet("verif")
+		for i, st := range steps {
+			before := len(csvErrorsOf(ds))
+			prev := map[string]interface{}{}
+			for k, v := range ds.Tables() {
+				prev[k] = v
+			}
+			ds.ParseCsvTextIntoTableWithTextColumns(st.name, st.text, st.ths...)
+			errs := csvErrorsOf(ds)
+			added := "-"
+			if len(errs) == before+1 {
+				added = csvSubErrClass(errs[len(errs)-1])
+			} else if len(errs) != before {
+				added = fmt.Sprintf("errors:%d->%d", before, len(errs))
+			}
+			tcanon := "none"
+			table, terr := ds.Table(st.name)
+			var ct tables.CsvTable
+			if terr == nil {
+				var isCsv bool
+				if ct, isCsv = table.(tables.CsvTable); isCsv {
+					tcanon, _, _, _ = csvTableCanon(ct, nil)
+				} else {
+					tcanon = fmt.Sprintf("?%T", table)
+				}
+			}
+			outs = append(outs, fmt.Sprintf("e=%s n=%d t=%s", added, len(errs), tcanon))
+
+			// ---- direct judgement of this step
+			e := &csvEval{}
+			ref, refErr := csvRefRead(st.text)
+			othersSame := len(ds.Tables()) >= len(prev)
+			for k, v := range prev {
+				if now, ok := ds.Tables()[k]; !ok || (k != st.name && now != v) {
+					othersSame = false
+				}
+			}
+			if !othersSame {
+				e.fail("error-xor-table", "csv:load-disturbs-other-tables", fmt.Sprintf("step %d (%q under %q): a table loaded earlier under another name changed or vanished", i+1, clip(st.text, 80), st.name))
+			}
+			newTable := ct != nil && prev[st.name] != interface{}(table)
+			wellFormed := refErr == nil && len(ref) > 0
+			switch {
+			case added != "-" && newTable:
+				e.fail("error-xor-table", "csv:error-and-table", fmt.Sprintf("step %d (%q under %q): an error (%s) and a new table", i+1, clip(st.text, 80), st.name, added))
+			case !wellFormed && added == "-":
+				e.fail("error-iff-malformed", "csv:missed-error", fmt.Sprintf("step %d: text %q is rejected by the reader (or has no record) but added no error", i+1, clip(st.text, 80)))
+			case wellFormed && added == "-" && !newTable:
+				_, taken := prev[st.name]
+				sig := "csv:no-error-no-table"
+				if taken {
+					sig = "csv:duplicate-table-neither-error-nor-table"
+				}
+				e.fail("error-xor-table", sig, fmt.Sprintf("step %d: well-formed text %q loaded under the name %q (already in use: %v) added no error, and Table(%q) does not hold it", i+1, clip(st.text, 80), st.name, taken, st.name))
+			case wellFormed && added != "-":
+				if _, taken := prev[st.name]; !taken {
+					e.fail("error-iff-malformed", "csv:spurious-error", fmt.Sprintf("step %d: well-formed text %q under the free name %q rejected (%s)", i+1, clip(st.text, 80), st.name, added))
+				}
+			}
+			if wellFormed && newTable {
+				var cols, rows uint
+				dp, _ := protectSite(func() { cols, rows = ct.ColumnAndRowSize() })
+				csvJudgeTable(e, st.text, ct, ref, st.ths, cols, rows, dp)
+			}
+			fails = append(fails, e.findings...)
+			switch {
+			case added == "-":
+				verdicts += "T"
+			case added == "duplicateTable":
+				verdicts += "D"
+			default:
+				verdicts += "E"
+			}
+		}
+	})
+	if p != "" {
+		c.Op(op, "panic-or-bad-op")
+		csvFail(c, "no-panic", "csv:load-panic", fmt.Sprintf("history %s panics in %s: %s", clip(op, 300), site, p), []string{op})
+		return
+	}
+	c.Op(op, strings.Join(outs, " / "))
+	for _, f := range fails {
+		if f.signature == "csv:bool-cell-loses-text" {
+			c.hist["direct-failure:"+f.signature]++ // D20 is witnessed (and minimised) by the load stream
+			continue
+		}
+		csvFail(c, f.predicate, f.signature, f.detail, []string{op})
+	}
+	c.Stat(stream + " steps=" + strconv.Itoa(len(steps)))
+	for i, v := range verdicts { // T = table added, E = text rejected, D = name already in use
+		c.hist[stream+" step outcome="+string(v)]++
+		if i > 0 && v == 'D' {
+			c.hist[stream+" step reuses a name"]++
+		}
+		if i > 0 && v == 'T' && strings.ContainsAny(verdicts[:i], "ED") {
+			c.hist[stream+" table added after an earlier error (sticky Errors())"]++
+		}
+	}
+	c.Nontrivial(op)
+}
+
+// csvCastGoCase: a literal outside the model's scope (more than 800 mantissa digits, where go's strconv is
+// known to mis-scale): crem must store exactly what strconv.ParseFloat returns; the model is not asked.
+func csvCastGoCase(c *Ctx, field, stream string) {
+	op := "castgo x" + hexs(field)
+	t := new(tables.CsvTableImpl)
+	e := &csvEval{}
+	p, site := protectSite(func() {
+		t.SetColumnAndRowSize(1, 1)
+		t.SetCell(0, 0, csvCaster.Cast(field))
+		csvJudgeCell(e, field, t, 0, 0)
+	})
+	c.Op(op, "go-only")
+	if p != "" {
+		csvFail(c, "no-panic", "csv:cast-panic", p+" in "+site, []string{op})
+		return
+	}
+	for _, f := range e.findings {
+		csvFail(c, f.predicate, f.signature, f.detail, []string{op})
+	}
+	c.Stat(stream + " castgo")
 }
 
 // ---------------------------------------------------------------- DataSet.Load (files)
@@ -503,8 +777,10 @@ func csvBucket(n int) string {
 		return strconv.Itoa(n)
 	case n <= 6:
 		return "4-6"
+	case n <= 15:
+		return "7-15"
 	}
-	return "7+"
+	return "16+"
 }
 
 // ---------------------------------------------------------------- generators
@@ -625,10 +901,13 @@ func csvNumberish(r *Rng) string {
 			s += []string{"p", "P"}[r.Intn(2)] + []string{"", "+", "-", "-"}[r.Intn(4)] + strconv.Itoa(e)
 		}
 	default: // long digit strings with compensating exponents
-		// at most 780 digits: beyond its 800-digit buffer go's strconv slow path mis-scales an
-		// integer mantissa (decimal.set takes dp from the *stored* digit count; seen with go1.23
-		// and go1.26: an 801-digit integer times 1e-796 parses ten times too small), which is
-		// strconv's quirk, reached only when Eisel-Lemire gives up, and is not modelled
+		// at most 780 digits: beyond its 800-digit buffer go's strconv slow path mis-scales a
+		// mantissa whose decimal point comes after more than 800 digits or is absent (decimal.set
+		// takes dp from the *stored* digit count; go1.23 and go1.26: d digits before the point parse
+		// 10^(d-800) times too small, e.g. 850 digits with e-845 give 3.5e-46 instead of 35075.4),
+		// which is strconv's defect, reached only when Eisel-Lemire gives up (a few inputs in a
+		// thousand), and is outside the model's scope (mantDigits <= 800); one such literal is kept
+		// in corpus/C20/long-mantissa.ops and judged against strconv only (op castgo)
 		n := 20 + r.Intn(1+r.Intn(760))
 		d := csvDigits(r, n)
 		switch r.Intn(4) {
@@ -809,6 +1088,194 @@ func csvShaped(r *Rng) string {
 	return sb.String()
 }
 
+// csvTextHeadings: text headings for a text whose reader-level header is hdr: mostly headings that occur
+// (so that the branch is taken), some that do not, the empty heading, duplicates.
+func csvTextHeadings(r *Rng, hdr []string) []string {
+	var ths []string
+	n := r.Intn(4)
+	for i := 0; i < n; i++ {
+		switch {
+		case len(hdr) > 0 && r.Chance(0.6):
+			ths = append(ths, hdr[r.Intn(len(hdr))])
+		case len(hdr) > 0 && r.Chance(0.3): // near misses: other letter case, a space more, a prefix
+			h := hdr[r.Intn(len(hdr))]
+			switch r.Intn(5) {
+			case 0:
+				h = strings.ToLower(h)
+			case 1:
+				h = strings.ToUpper(h)
+			case 2:
+				h = h + " "
+			case 3:
+				h = " " + h
+			default:
+				if len(h) > 0 {
+					h = h[:len(h)-1]
+				}
+			}
+			ths = append(ths, h)
+		case r.Chance(0.3):
+			ths = append(ths, "")
+		default:
+			ths = append(ths, csvWords[r.Intn(len(csvWords))])
+		}
+	}
+	return ths
+}
+
+// csvTCShaped: a grammar text whose data fields are mostly number-/boolean-looking (what a text column is for)
+func csvTCShaped(r *Rng) string {
+	cols := 1 + r.Intn(5)
+	rows := r.Intn(5)
+	hdrWords := []string{"Solution", "Actions", "Summary", "a", "b", "Actions", "", "1E5", "true"}
+	var sb strings.Builder
+	for i := 0; i <= rows; i++ {
+		for k := 0; k < cols; k++ {
+			if k > 0 {
+				sb.WriteString([]string{",", ", "}[r.Intn(2)])
+			}
+			var f string
+			switch {
+			case i == 0:
+				f = hdrWords[r.Intn(len(hdrWords))]
+			case r.Chance(0.45):
+				f = csvNumberish(r)
+			case r.Chance(0.4):
+				f = csvBoolish[r.Intn(len(csvBoolish))]
+			default:
+				f = csvFieldContent(r)
+			}
+			sb.WriteString(csvRenderField(r, f))
+		}
+		sb.WriteString("\n")
+	}
+	return sb.String()
+}
+
+func csvHistory(r *Rng) []csvHistStep {
+	names := []string{"t", "t", "u", "requestContent", ""}
+	n := 2 + r.Intn(3)
+	steps := make([]csvHistStep, n)
+	for i := range steps {
+		var text string
+		switch r.Intn(8) {
+		case 0:
+			text = csvDegenerate[r.Intn(len(csvDegenerate))]
+		case 1:
+			text = csvMutate(r, csvShaped(r))
+		case 2:
+			text = csvTCShaped(r)
+		default:
+			text = csvShaped(r)
+		}
+		steps[i] = csvHistStep{name: names[r.Intn(len(names))], text: text}
+		if r.Chance(0.3) {
+			ref, _ := csvRefRead(text)
+			var hdr []string
+			if len(ref) > 0 {
+				hdr = ref[0]
+			}
+			steps[i].ths = csvTextHeadings(r, hdr)
+		}
+	}
+	return steps
+}
+
+// csvLongLines: texts with a line of 4-16 KiB (encoding/csv's readLine takes its ErrBufferFull path from 4096
+// bytes on): the line end — `\n`, `\r\n`, a lone `\r`, or none — is placed on and around the multiples of
+// the 4096-byte buffer; the long line is the header, a data row, or a quoted field spanning lines.
+func csvLongLines(r *Rng) string {
+	edge := 4096 * (1 + r.Intn(4))
+	target := edge + r.Intn(7) - 3 // bytes up to and including the line end
+	eol := []string{"\n", "\r\n", "\r\n", "\r", ""}[r.Intn(5)]
+	filler := func(n int) string {
+		if n <= 0 {
+			return ""
+		}
+		b := make([]byte, n)
+		for i := range b {
+			b[i] = "abcdefghij0123456789 .-_"[r.Intn(24)]
+		}
+		if b[0] == ' ' {
+			b[0] = 'z'
+		}
+		return string(b)
+	}
+	cols := 1 + r.Intn(4)
+	// the long line: cols fields, the padding spread over them (one of them may take nearly all of it)
+	long := func() string {
+		body := target - len(eol) - (cols - 1)
+		if body < cols {
+			body = cols
+		}
+		var fs []string
+		rest := body
+		for k := 0; k < cols; k++ {
+			n := rest
+			if k < cols-1 {
+				n = r.Intn(rest/(cols-k) + 1)
+				if r.Chance(0.3) {
+					n = r.Intn(40)
+				}
+			}
+			rest -= n
+			f := filler(n)
+			if n >= 2 && r.Chance(0.25) {
+				f = "\"" + filler(n-2) + "\"" // a quoted field, perhaps across the buffer edge
+			}
+			if n >= 8 && r.Chance(0.15) {
+				f = "\"" + filler((n-3)/2) + "\n" + filler(n-3-(n-3)/2) + "\"" // ... spanning two lines
+			}
+			fs = append(fs, f)
+		}
+		return strings.Join(fs, ",")
+	}
+	short := func() string {
+		fs := make([]string, cols)
+		for k := range fs {
+			fs[k] = []string{"a", "1", "x y", "", "2.5", "true"}[r.Intn(6)]
+		}
+		if cols == 1 && fs[0] == "" {
+			fs[0] = "q"
+		}
+		return strings.Join(fs, ",")
+	}
+	switch r.Intn(3) {
+	case 0: // long header
+		return long() + eol + short() + "\n"
+	case 1: // long last data row
+		return short() + "\n" + long() + eol
+	default: // long row in the middle
+		return short() + "\n" + long() + eol + short() + "\n"
+	}
+}
+
+// csvBigTable: many columns and rows of short fields
+func csvBigTable(r *Rng) string {
+	cols := 9 + r.Intn(40)
+	rows := 8 + r.Intn(60)
+	fields := []string{"1", "0", "x", "", "2.5", "T", "1e3", "abc", "-7", " s"}
+	var sb strings.Builder
+	for i := 0; i <= rows; i++ {
+		n := cols
+		if r.Chance(0.01) {
+			n += r.Intn(3) - 1
+		}
+		for k := 0; k < n; k++ {
+			if k > 0 {
+				sb.WriteString(",")
+			}
+			if i == 0 {
+				sb.WriteString("h" + strconv.Itoa(k%7))
+			} else {
+				sb.WriteString(fields[r.Intn(len(fields))])
+			}
+		}
+		sb.WriteString([]string{"\n", "\r\n"}[r.Intn(2)])
+	}
+	return sb.String()
+}
+
 var csvRawAlpha = []byte("ab1,\"\n\r \t\xc2\xa0\x85\xe2\x80\x81\x9f\xe3\xe1\x9a\xa8\xaf\x8ate.-x0,\"\n")
 
 func csvRaw(r *Rng) string {
@@ -877,6 +1344,60 @@ func csvReplayLines(c *Ctx, lines []string, stream string) {
 			}
 			continue
 		}
+		unx := func(word, prefix string) (string, bool) {
+			if !strings.HasPrefix(word, prefix) {
+				return "", false
+			}
+			b, err := hex.DecodeString(word[len(prefix):])
+			return string(b), err == nil
+		}
+		if len(w) >= 2 && w[0] == "loadtc" {
+			text, ok := unx(w[1], "x")
+			var ths []string
+			for _, hw := range w[2:] {
+				h, hok := unx(hw, "x")
+				ok = ok && hok
+				ths = append(ths, h)
+			}
+			if ok {
+				csvLoadCaseTC(c, text, stream, csvLoadTextTC(ths), ths, true)
+			}
+			continue
+		}
+		if len(w) >= 3 && w[0] == "hist" {
+			var steps []csvHistStep
+			ok := true
+			cur := []string{}
+			flush := func() {
+				if len(cur) < 2 {
+					ok = false
+					return
+				}
+				name, ok1 := unx(cur[0], "n")
+				text, ok2 := unx(cur[1], "x")
+				st := csvHistStep{name: name, text: text}
+				for _, hw := range cur[2:] {
+					h, hok := unx(hw, "x")
+					ok1 = ok1 && hok
+					st.ths = append(st.ths, h)
+				}
+				ok = ok && ok1 && ok2
+				steps = append(steps, st)
+				cur = []string{}
+			}
+			for _, x := range w[1:] {
+				if x == "/" {
+					flush()
+				} else {
+					cur = append(cur, x)
+				}
+			}
+			flush()
+			if ok {
+				csvHistCase(c, steps, stream)
+			}
+			continue
+		}
 		if len(w) != 2 || !strings.HasPrefix(w[1], "x") {
 			continue
 		}
@@ -889,6 +1410,8 @@ func csvReplayLines(c *Ctx, lines []string, stream string) {
 			csvLoadCase(c, string(b), stream, csvLoadText)
 		case "cast":
 			csvCastCase(c, string(b), stream)
+		case "castgo":
+			csvCastGoCase(c, string(b), stream)
 		}
 	}
 }
@@ -938,6 +1461,68 @@ func suiteCsv(c *Ctx) {
 	n = c.N(25000, 200000)
 	for i := 0; i < n; i++ {
 		csvLoadCase(c, csvRaw(r), "raw", csvLoadText)
+	}
+	// 3a. text columns: ParseCsvTextIntoTableWithTextColumns (what the engine's POST /solutions calls with
+	// "Actions"); headings that occur, that do not, the empty heading, duplicates
+	if c.Shard == 0 {
+		for _, t := range csvDegenerate {
+			csvLoadCaseTC(c, t, "textcol-degenerate", csvLoadTextTC([]string{"a"}), []string{"a"}, true)
+		}
+		for _, k := range []struct {
+			text string
+			ths  []string
+		}{
+			{"Solution, Actions\nx, 1E5\n", []string{"Actions"}}, {"Solution, Actions\nx, 1E5\n", nil}, {"Solution, Actions\nx, F\n", []string{"Actions"}},
+			{"A,A\n1,F\n", []string{"A", "Z"}}, {",x\ntrue,1\n", []string{""}}, {"a,b\n1,2\n", []string{"b", "b"}}, {"a,b\n1,2\n", []string{"c"}},
+			{"Actions\n", []string{"Actions"}}, {"Actions\n1\n2,3\n", []string{"Actions"}}, {"\"Actions\", b\ninf,nan\n", []string{"Actions"}}, {" Actions\n0x1p-2\n", []string{"Actions"}}, {"Actions \n0x1p-2\n", []string{"Actions"}},
+		} {
+			csvLoadCaseTC(c, k.text, "textcol-handpicked", csvLoadTextTC(k.ths), k.ths, true)
+		}
+	}
+	n = c.N(9000, 80000)
+	for i := 0; i < n; i++ {
+		var t string
+		if r.Chance(0.6) {
+			t = csvTCShaped(r)
+		} else {
+			t = csvShaped(r)
+		}
+		if r.Chance(0.15) {
+			t = csvMutate(r, t)
+		}
+		ref, _ := csvRefRead(t)
+		var hdr []string
+		if len(ref) > 0 {
+			hdr = ref[0]
+		}
+		ths := csvTextHeadings(r, hdr)
+		csvLoadCaseTC(c, t, "textcol", csvLoadTextTC(ths), ths, true)
+	}
+	// 3b. several loads into one data set (sticky errors, a name used twice)
+	if c.Shard == 0 {
+		for _, h := range [][]csvHistStep{
+			{{name: "t", text: "a\n1\n"}, {name: "t", text: "b\n2\n"}},
+			{{name: "t", text: "a\n1\n"}, {name: "u", text: "b\n2\n"}, {name: "t", text: "a\n1\n"}},
+			{{name: "t", text: "\""}, {name: "t", text: "b\n"}},
+			{{name: "t", text: ""}, {name: "t", text: "a,b\n1\n"}, {name: "t", text: "a\n"}, {name: "t", text: "c\n"}},
+			{{name: "t", text: "a\n1\n"}, {name: "t", text: "a\"b"}},
+		} {
+			csvHistCase(c, h, "history-handpicked")
+		}
+	}
+	n = c.N(6000, 50000)
+	for i := 0; i < n; i++ {
+		csvHistCase(c, csvHistory(r), "history")
+	}
+	// 3c. long lines (4-16 KiB, encoding/csv's ErrBufferFull path) and big tables
+	// (the Lean model appends to a field byte by byte, quadratic in the field's length: keep the count small)
+	n = c.N(40, 400)
+	for i := 0; i < n; i++ {
+		csvLoadCase(c, csvLongLines(r), "long-line", csvLoadText)
+	}
+	n = c.N(120, 1200)
+	for i := 0; i < n; i++ {
+		csvLoadCase(c, csvBigTable(r), "big-table", csvLoadText)
 	}
 	// 4. the same loader reached through files: DataSet.Load(meta file) -> loadCsvIntoTable.
 	// The model is the same `load`; degenerate meta files are judged on the Go side only.
